@@ -127,6 +127,21 @@ void gen_c18(Plan &p, Rng &r, bool thorough) {
         }
       }
       if (execp) t.ops.push_back(mk(OP_EXEC, 0));
+      if (r.chance(1, 4)) {
+        // the file entry points, on this caller's own file
+        FileSpec f;
+        f.path = "/sim/t" + std::to_string(ti) + "_" + std::to_string(l) + ".asm";
+        int nl2 = (int)r.range(1, 10);
+        for (int q = 0; q < nl2; q++) f.data += any_instr(r) + "\n";
+        p.world.files.push_back(f);
+        Op so = mk(OP_OFFSET, 0);
+        so.k = 0;
+        t.ops.push_back(so);
+        Op fa = mk(r.chance(1, 3) ? OP_COUNT_FILE : OP_ASM_FILE, 0);
+        fa.path = f.path;
+        fa.c = r.range(2, 32);
+        t.ops.push_back(fa);
+      }
       t.ops.push_back(mk(OP_DESTROY, 0));
     }
     p.tasks.push_back(t);
